@@ -86,7 +86,8 @@ FMTS = [None, "f1", "followup"]
 
 
 class Case:
-    def __init__(self, idx, scratch):
+    def __init__(self, idx, scratch, mode="th"):
+        self.mode = mode
         self.idx = idx
         self.start_name, self.call, self.label = CASES[idx]
         self.scratch = scratch
@@ -121,13 +122,32 @@ class Case:
     def subject_pid(self):
         return self.call.get("pid")
 
+    def open(self, root):
+        """A fresh instance in this case's synchronisation mode ('mp': USE_MULTIPROCESSING=True; the
+        manager-backed lists are process-local stand-ins, single calls need no server processes)."""
+        if self.mode != "mp":
+            return open_store(root)
+        import multiprocessing as _mp
+        from .concengine import _LocalManager
+        real = _mp.Manager
+        os.environ["USE_MULTIPROCESSING"] = "True"
+        _mp.Manager = _LocalManager
+        try:
+            st = open_store(root)
+        finally:
+            _mp.Manager = real
+            os.environ["USE_MULTIPROCESSING"] = "False"
+        if not getattr(st, "use_multiprocessing", False):
+            raise Inconclusive("store built with USE_MULTIPROCESSING=True did not enter multiprocessing mode")
+        return st
+
     def abstract(self, root):
         return absstate.abstract(root, self.layout, PIDS, [(p, f) for p in PIDS for f in FMTS])
 
     def fresh_run(self):
         shutil.rmtree(self.rundir, ignore_errors=True)
         shutil.copytree(self.template, self.rundir)
-        store = open_store(self.rundir)
+        store = self.open(self.rundir)
         env = World(self.scratch, self.contents, self.docs, pids=PIDS, fmts=FMTS, store_dir="run", store=store,
                     datadir=self.datadir)
         env._paths = dict(self._paths)
@@ -218,12 +238,13 @@ class FaultInjector:
 def hygiene(store):
     """C08: locked lists empty; the store's conditions are not held."""
     probs = []
-    locked = {k: v for k, v in S.locked_lists(store, "th").items() if v}
+    mode = "mp" if getattr(store, "use_multiprocessing", False) else "th"
+    locked = {k: v for k, v in S.locked_lists(store, mode).items() if v}
     if locked:
         probs.append(("leaked-lock", {"lists": locked}))
-    for cattr, lattr, _l in S.SYNC_ATTRS["th"]:
+    for cattr, lattr, _l in S.SYNC_ATTRS[mode]:
         lock = getattr(store, lattr)
-        got = lock.acquire(blocking=False)
+        got = lock.acquire(False)
         if got:
             lock.release()
         else:
@@ -255,7 +276,8 @@ def followup(store, case, pids):
     t = threading.Thread(target=work, daemon=True)
     t.start()
     if not done.wait(20):
-        locked = {k: v for k, v in S.locked_lists(store, "th").items() if v}
+        mode = "mp" if getattr(store, "use_multiprocessing", False) else "th"
+        locked = {k: v for k, v in S.locked_lists(store, mode).items() if v}
         if locked:
             probs.append(("follow-up-blocked", {"locked_lists": locked}))
         else:
